@@ -21,6 +21,9 @@ import (
 	"filippo.io/sunlight/internal/verifsim/ref"
 )
 
+// lastTrace is the command list of the most recent run.
+var lastTrace []core.Cmd
+
 // cur is the world of the run in progress; the clock hook reads it. One run at
 // a time per process.
 var cur *World
